@@ -36,6 +36,7 @@ class Run:
         self.started = []
         self.ndeliv = 0
         self.dstack = []
+        self.failacks = []         # delivery indices whose consumer future was failed
         self.reacts = []           # [eid, value, ticks] of emits made by the consumer inside a hand-over
         self.mixacks = []          # per ack: global index of the delivery whose future was resolved (-1: none)
         self.mixtasks = []         # per "task" inside a mix: the job completed (None if there was none)
@@ -362,6 +363,7 @@ class Run:
             if self.outstanding:
                 f = self.outstanding.pop(0)
                 self.mixacks.append(f._didx)
+                self.failacks.append(f._didx)
                 self.loop.call_soon(lambda: f.set_exception(RuntimeError("sink failed")))
             self.loop.settle()
         elif kind == "task":
@@ -379,7 +381,8 @@ class Run:
         o = {"now": self.loop.ticks(), "deliv": self.deliv, "done": sorted(self.done), "failed": sorted(self.failed),
              "counts": [self.counters[i].count if i in self.counters else 0 for i in range(nrc)],
              "fired": list(self.fired), "nout": len(self.outstanding), "ntasks": len(self.tasks),
-             "started": list(self.started), "mixacks": self.mixacks, "mixtasks": self.mixtasks, "reacts": self.reacts}
+             "started": list(self.started), "mixacks": self.mixacks, "mixtasks": self.mixtasks, "reacts": self.reacts, "failacks": self.failacks}
+        self.failacks = []
         self.reacts = []
         self.mixacks = []
         self.mixtasks = []
